@@ -55,6 +55,16 @@ impl Condvar {
         // Disable the current thread
         rt::park(location);
 
+        // The thread may have been resumed by an unpark token instead of a
+        // notification. It is not waiting anymore: a later notification must
+        // not be spent on it.
+        rt::execution(|execution| {
+            let thread = execution.threads.active_id();
+            let state = self.state.get_mut(&mut execution.objects);
+
+            state.waiters.retain(|waiter| *waiter != thread);
+        });
+
         // Acquire the lock again
         mutex.acquire_lock(location);
     }
